@@ -283,7 +283,8 @@ PROPS["C01"]["custom"] = _asmx.run
 PROPS["C15"]["custom"] = _asmx.run
 import rbind as _rbind  # noqa: E402
 PROPS["C09"]["custom"] = _rbind.iter_step
-for _p in ("C04", "C19", "C10", "C03", "C07", "C13"):
+for _p in ("C04", "C19", "C03", "C07", "C13"):
     PROPS[_p]["custom"] = _rbind.machine_step
+PROPS["C10"]["custom"] = _rbind.chain(_asmx.forms_step, _rbind.machine_step)
 import costdrift as _costdrift  # noqa: E402
 PROPS["C20"]["custom"] = _costdrift.run
